@@ -7,9 +7,17 @@ import (
 	"runtime/pprof"
 
 	_ "verif/harness/checks"
+	_ "verif/harness/checks/c06"
+	_ "verif/harness/checks/c09"
+	_ "verif/harness/checks/c10"
 	_ "verif/harness/checks/c11"
 	_ "verif/harness/checks/c13"
+	_ "verif/harness/checks/c15"
+	_ "verif/harness/checks/c16"
+	_ "verif/harness/checks/c17"
+	_ "verif/harness/checks/c18"
 	_ "verif/harness/checks/c19"
+	_ "verif/harness/checks/c20"
 	"verif/harness/lib"
 )
 
